@@ -219,6 +219,7 @@ func runCodec(script, outPath string) {
 	gob.Register([]interface{}{})
 	gob.Register(map[string]interface{}{})
 	cs := &codecStore{}
+	var prevDirect, prevCopy []byte
 	sessions.Persistence = cs
 	in, err := os.Open(script)
 	if err != nil {
@@ -269,6 +270,18 @@ func runCodec(script, outPath string) {
 					}
 				}
 				s := sessions.VerifNewSession(fl)
+				if codec == "gob" {
+					// the bytes GobEncode handed out earlier must not change when another session is encoded
+					if direct, err := s.GobEncode(); err == nil {
+						if prevDirect != nil && !bytes.Equal(prevDirect, prevCopy) {
+							emit("rt gob alias")
+							prevDirect, prevCopy = nil, nil
+							return
+						}
+						prevDirect = direct
+						prevCopy = append([]byte(nil), direct...)
+					}
+				}
 				b, err := encodeWith(codec, s)
 				if err != nil {
 					emit("rt %s encerr", codec)
